@@ -186,6 +186,12 @@ def w_arith(arg):
             acc.check(close(A(q, {k: f(np.sqrt(q @ q)) for k, f in fpow(A).items()}), v), 'call-with-values-evaluates-the-series', sg, sig=('callv', sg))
             d = A(q)
             acc.check(close(sum(np.sqrt(q @ q) ** float(n) * d[(n, l)] for (n, l) in d), v) and set(d) == set(A.nl()), 'call-dictionary-evaluates-the-series', sg, sig=('calld', sg))
+        # ... also when the list holds several entries with the same (n, l) (pieces of separated expansions put in one list)
+        Rep = cls(snapshot(A) + [(n, l, c * complex(rng.normal(), rng.normal())) for n, l, c in snapshot(A)][:2])
+        for q in qs:
+            v = val(Rep, q)
+            acc.check(close(Rep(q, fpow(Rep)), v), 'call-with-functions-evaluates-the-series(repeated (n,l) entries)', sg, sig=('callrep', sg))
+            acc.check(close(Rep(q, {k: f(np.sqrt(q @ q)) for k, f in fpow(Rep).items()}), v), 'call-with-values-evaluates-the-series(repeated (n,l) entries)', sg, sig=('callvrep', sg))
         def ops():
             yield 'A+B', A + B, [x + y for x, y in zip(va, vb)]
             yield 'B+A', B + A, [x + y for x, y in zip(va, vb)]
